@@ -28,7 +28,9 @@ RULE = ("ADMGs with 2-5 nodes (thorough: up to 6; half random, half mutations of
         "Verma, bow, line-7 chains; isolated and irrelevant nodes, several districts) x disjoint non-empty X, Y; plus "
         "structured napkin-like graphs with 5-7 nodes (outcome district of 2-3 nodes, optional outer napkin layer / "
         "mediator district / irrelevant node, random relabelling) that drive ID through 7->6, 7->2->6 and 7->7 with "
-        "conditionals read off a carried estimand for a child that is not last (tag pp_carried_nonlast); corpus = "
+        "conditionals read off a carried estimand for a child that is not last (tag pp_carried_nonlast); nested napkins with 2-3 levels "
+        "(line 7 three times in a row, 8 binary nodes), line 4 into several multi-node districts with outcomes in 2-3 districts and "
+        "|Y| <= 4, random 6-node graphs with |X|, |Y| <= 3 (gap review round 5); corpus = "
         "y0.examples graphs with <= 6 nodes and the F3 witness (napkin). Every returned estimand is evaluated exactly on "
         "2-3 random positive SCMs compatible with the graph at every assignment. A case is non-trivial when ID returned "
         "an estimand and the run used at least one of lines 4, 6, 7.")
@@ -120,6 +122,26 @@ def _cases(rng: random.Random, tier: str):
         if q is None:
             continue
         out.append({"g": g, "X": q[0], "Y": q[1], "label": "random", "seed": rng.randrange(1 << 30)})
+    # structured (gap review round 5; appended so that the earlier cases of a seed are unchanged): nested napkins (line 7
+    # two / three times in a row: 6 / 8 nodes, all binary = 64 / 256 states, one model), line 4 into several MULTI-NODE
+    # districts with outcomes in 2-3 districts and |Y| up to 4, and a few random graphs with 6 nodes and |X|, |Y| up to 3
+    nt = 24 if tier == "quick" else 150
+    for k in range(nt):
+        g, X, Y, kind = R.napkin_tower(rng, levels=3 if k % 3 else 2)
+        out.append({"g": g, "X": X, "Y": Y, "label": "structured:" + kind, "seed": rng.randrange(1 << 30),
+                    "max_states": 256, "models": 1})
+    nd = 150 if tier == "quick" else 1200
+    for k in range(nd):
+        g, X, Y, kind = R.multi_district_family(rng, (5, 6, 7, 5, 6)[k % 5])
+        big = len(G.all_nodes(g)) >= 6
+        out.append({"g": g, "X": X, "Y": Y, "label": "structured:" + kind, "seed": rng.randrange(1 << 30),
+                    "max_states": 128 if big else 250, "models": 1 if big else 2})
+    n6 = 60 if tier == "quick" else 600
+    for k in range(n6):
+        g = R.gen_graph(rng, 6, 6)
+        q = R.big_query(rng, G.all_nodes(g))
+        X, Y = q[0][:3], q[1][:3]
+        out.append({"g": g, "X": X, "Y": Y, "label": "random6", "seed": rng.randrange(1 << 30), "max_states": 64, "models": 1})
     return out
 
 
